@@ -218,6 +218,22 @@ def replay_case(case):
                 if outcome != expect:
                     res["violations"].append("%s threshold rule: most negative value %.6g, threshold %.6g (%.4g times its magnitude): "
                                              "expected %s, got %s" % (fname, -neg, thr, factor, "clipping to 0" if expect == "zero" else "ValueError", outcome))
+        # ---- the same points given as float32 / as integers (exactly representable): same numbers
+        ipts = np.array([[1, 0, -2], [0, 0, 0], [3, -1, 1]])
+        for name, fn in (("evaluate_density_gradient", dens.evaluate_density_gradient), ("evaluate_density_laplacian", dens.evaluate_density_laplacian),
+                         ("evaluate_density_hessian", dens.evaluate_density_hessian),
+                         ("evaluate_deriv_density", lambda P_, b_, p_, **k_: dens.evaluate_deriv_density(np.array([1, 0, 1]), P_, b_, p_, **k_))):
+            ref = fn(P, shells, ipts.astype(float), **kw)
+            for alt, label in ((ipts.astype(np.float32), "float32"), (ipts, "integer")):
+                try:
+                    got = fn(P, shells, alt, **kw)
+                except Exception as exc:  # noqa: BLE001
+                    res["violations"].append("%s with %s points raised %s: %s" % (name, label, type(exc).__name__, exc))
+                    continue
+                res["n"] += 1
+                if got.shape != ref.shape or not np.abs(got - ref).max() <= 1e-12 * (np.abs(ref).max() + 1e-300):
+                    res["violations"].append("%s depends on the dtype of the points array: %s points give a result differing by %.3g from float64 points"
+                                             % (name, label, float(np.abs(np.asarray(got, dtype=float) - ref).max()) if got.shape == ref.shape else float("nan")))
         # ---- exact zeros with a zero threshold: every function of an l >= 1 shell vanishes at its own centre, and the
         # gradient of an s function vanishes at its centre -- exactly, in any order of floating-point operations.  A value
         # that is exactly zero is not negative: it must be returned, not rejected.
